@@ -25,7 +25,9 @@ type externalFn func(fr *frame, args []value) value
 var externals = make(map[string]externalFn)
 
 // prefix rules: any function whose String() starts with the key.
-var externalPrefixes = map[string]externalFn{}
+var externalPrefixes = map[string]externalFn{
+	"github.com/google/martian/v3/log.": noop,
+}
 
 func noop(fr *frame, args []value) value { return nil }
 
